@@ -22,10 +22,10 @@ INNER = [['tap', 'h'], ['to_list'], ['tap', 't']]
 
 
 def bounds(tier):
-    g = 6 if tier == 'quick' else 8
+    g = 8 if tier == 'quick' else 10
     return {'window': [1, g], 'stride': [1, g], 'length': '0..3(w+s)+2',
-            'grouped_keys': [2, 3], 'grouped_per_key_len': 4 if tier == 'quick' else 5,
-            'raw_depth': 8 if tier == 'quick' else 10}
+            'grouped_keys': [2, 3], 'grouped_per_key_len': 5 if tier == 'quick' else 6,
+            'raw_depth': 9 if tier == 'quick' else 11}
 
 
 def windows(items, w, s):
@@ -33,13 +33,13 @@ def windows(items, w, s):
 
 
 def units(tier):
-    g = 6 if tier == 'quick' else 8
+    g = 8 if tier == 'quick' else 10
     out = []
     for w in range(1, g + 1):
         for s in range(1, g + 1):
             out.append({'fam': 'top', 'w': w, 's': s})
     cfgs = [(1, 1), (2, 1), (2, 2), (3, 1), (3, 2), (2, 3), (4, 2), (3, 3), (5, 2), (1, 2)]
-    L = 4 if tier == 'quick' else 5
+    L = 5 if tier == 'quick' else 6
     sizes = [(a, b) for a in range(1, L + 1) for b in range(1, L + 1)]
     sizes3 = [(a, b, c) for a in range(1, 4) for b in range(1, 4) for c in range(1, 4)] if tier != 'quick' else \
         [(a, b, c) for a in range(1, 3) for b in range(1, 4) for c in range(1, 3)]
@@ -52,10 +52,10 @@ def units(tier):
             out.append({'fam': 'rollroll', 'w1': w1, 's1': s1, 'w2': w2, 's2': s2})
         out.append({'fam': 'splitroll', 'w': w1, 's': s1})
         out.append({'fam': 'rollsplit', 'w': w1, 's': s1})
-    depth = 8 if tier == 'quick' else 10
+    depth = 9 if tier == 'quick' else 11
     for (w, s) in [(2, 1), (3, 2), (2, 2), (3, 1), (1, 2), (2, 3)]:
         for keys in ([0, 1], [1, 3]):
-            n = 4 if tier == 'quick' else 16
+            n = 8 if tier == 'quick' else 32
             for sh in range(n):
                 out.append({'fam': 'raw', 'w': w, 's': s, 'keys': keys, 'depth': depth, 'shard': [sh, n]})
     return out
